@@ -3,7 +3,7 @@
 EXTENDS Integers, Sequences, FiniteSets, TLC, Json, IOUtils, SequencesExt, Randomization
 Thorough == "TIER" \in DOMAIN IOEnv /\ IOEnv.TIER = "thorough"
 Sub(S, n) == IF Thorough \/ Cardinality(S) <= n THEN S ELSE RandomSubset(n, S)
-N1 == (0..130) \cup {144, 169, 210, 243, 256, 289, 343, 512, 625, 729, 841, 1000, 1024, 1331, 2048, 2187, 2197, 2310}
+N1 == (0..130) \cup {162, 242, 250, 338, 486, 578, 686, 144, 169, 210, 243, 256, 289, 343, 512, 625, 729, 841, 1000, 1024, 1331, 2048, 2187, 2197, 2310}
 C1 == {[op |-> "nt1", n |-> n] : n \in N1}
 C2 == {[op |-> "nt2", a |-> a, b |-> b] : a \in -12..12, b \in -12..12}
       \cup {[op |-> "nt2", a |-> a, b |-> b] : a \in {13, 15, 17, 20, 23, 24, 30, 31, 36, 45, 63, 64, 97, 100, -15, -23, -30}, b \in Sub(1..45, 25) \cup {-7, -9, -16, 0}}
